@@ -42,6 +42,25 @@ def productions(fn):
   for c in direct:
     out.append(Production('append', c.elt, [(g.target, g.iter) for g in c.generators],
                           [i for g in c.generators for i in g.ifs], c))
+  # list(itertools.chain.from_iterable(X)) / list(chain(*X)): every element of
+  # every member of X, i.e. `for d in X: result.extend(d)`
+  for x in walk_local(fn):
+    v = None
+    if isinstance(x, ast.Return):
+      v = x.value
+    elif isinstance(x, ast.Assign) and any(isinstance(t, ast.Name) and t.id in res for t in x.targets):
+      v = x.value
+    if isinstance(v, ast.Call) and call_tail(v) in ('list', 'tuple') and len(v.args) == 1:
+      v = v.args[0]
+    if isinstance(v, ast.Call):
+      src = None
+      if call_tail(v) == 'from_iterable' and len(v.args) == 1:
+        src = v.args[0]
+      elif call_tail(v) == 'chain' and len(v.args) == 1 and isinstance(v.args[0], ast.Starred):
+        src = v.args[0].value
+      if src is not None:
+        d = ast.Name(id='_member', ctx=ast.Load())
+        out.append(Production('extend', d, [(ast.Name(id='_member', ctx=ast.Store()), src)], [], x))
 
   # accumulation into a returned local inside loops
   def visit(stmts, gens, conds):
